@@ -184,6 +184,8 @@ class Kernel:
         self.git_calls = []
         self.installed = False
         self.kill_terminates = True
+        self.wakeup_fd = -1
+        self.arrivals = 0
         self.bypass = False       # True while the harness itself runs a real helper process
         self.on_block = None      # called when the main thread would block in read()
 
@@ -249,7 +251,7 @@ class Kernel:
             p.t_exit = p.t_spawn
             self.procs[pid] = p
             if self.handler is not None:
-                self.pending = True
+                self._arrived()
             return pid
         if self.sched.launch_fails(self, argv, envd):
             self.ev("launch_failed", envd.get("COND_NAME"))
@@ -276,7 +278,7 @@ class Kernel:
             os.close(fd)
         p.fds = {}
         p.state = "zombie"
-        self.pending = True
+        self._arrived()
         e = self.ev("exit", p.pid, p.name, p.status)
         p.t_exit = e[1]
 
@@ -316,11 +318,11 @@ class Kernel:
                 # the handler runs, then somebody continues the child
                 p.stopped = True
                 p.stop_reported = False
-                self.pending = True
+                self._arrived()
                 self.ev("stop", p.pid, p.name)
                 self.deliver()
                 p.stopped = False
-                self.pending = True          # SIGCHLD is also sent when a stopped child continues
+                self._arrived()              # SIGCHLD is also sent when a stopped child continues
                 self.ev("cont", p.pid, p.name)
                 self.deliver()
             run = self.running()
@@ -367,15 +369,23 @@ class Kernel:
         if threading.get_ident() != self.main_thread:
             return self._real["read"](fd, n)
         self._point("read")
+        # A signal that arrived BEFORE the read() system call is entered does not interrupt it: the interpreter only
+        # noted it for later (and wrote to the wake-up descriptor, if one is set). Only a signal arriving while the call
+        # is blocked makes it return EINTR, after which the Python-level handlers run and the read is retried (PEP 475).
+        seen = self.arrivals
         while True:
             po = select.poll()            # (select.select is limited to descriptors below 1024)
             po.register(fd, select.POLLIN | select.POLLHUP)
             r = po.poll(0)
             if r:
-                return self._real["read"](fd, n)
-            if self.pending and self.handler is not None:
-                # PEP 475: the handler runs, then the read is retried
-                self.deliver()
+                data = self._real["read"](fd, n)
+                # back in the interpreter: pending Python-level handlers run before the next bytecode line
+                if self.pending and self.handler is not None:
+                    self.deliver()
+                return data
+            if self.pending and self.handler is not None and self.arrivals > seen:
+                self.deliver()            # EINTR: handler, then retry
+                seen = self.arrivals
                 continue
             if self.on_block is not None:
                 self.on_block(self, fd)
@@ -385,6 +395,9 @@ class Kernel:
                 return self._real["read"](fd, n)
             if not run:
                 self.ev("deadlock", fd)
+                if self.pending and self.handler is not None:
+                    raise Deadlock("blocked in read(%d) forever: the last SIGCHLD arrived just before the call was entered, so it "
+                                   "does not interrupt it, and its Python-level handler never runs" % fd)
                 raise Deadlock("blocked in read(%d): nothing pending, no running child" % fd)
             self.exit_child(self.sched.pick_exit(self, run))
             if self.adversarial:
@@ -393,7 +406,6 @@ class Kernel:
                 if more:
                     for p in self.sched.exits_now(self, "read_batch", more):
                         self.exit_child(p)
-            self.deliver()
 
     def getpgid(self, pid):
         p = self.procs.get(pid)
@@ -418,7 +430,7 @@ class Kernel:
                 os.close(fd)
             p.fds = {}
             p.state = "zombie"
-            self.pending = True
+            self._arrived()
             e = self.ev("exit", p.pid, p.name, p.status)
             p.t_exit = e[1]
 
@@ -426,6 +438,24 @@ class Kernel:
         if pid in self.procs:
             return self.killpg(pid, sig)
         return self._real["kill"](pid, sig)
+
+    def set_wakeup_fd(self, fd, **kw):
+        """signal.set_wakeup_fd: the interpreter's C-level handler writes the signal
+        number to this descriptor as soon as a signal arrives (before any
+        Python-level handler runs)."""
+        old = self.wakeup_fd
+        self.wakeup_fd = fd
+        return old
+
+    def _arrived(self):
+        """A SIGCHLD has arrived at C level: it is pending for the Python-level handler."""
+        self.pending = True
+        self.arrivals += 1
+        if self.wakeup_fd is not None and self.wakeup_fd >= 0 and self.handler is not None:
+            try:
+                self._real["write"](self.wakeup_fd, bytes([int(signal.SIGCHLD)]))
+            except OSError:
+                pass
 
     def signal(self, sig, h):
         if sig == signal.SIGCHLD:
@@ -457,8 +487,9 @@ class Kernel:
             "read": os.read, "write": os.write, "getpgid": os.getpgid, "killpg": os.killpg,
             "kill": os.kill, "signal": signal.signal, "time": time.time,
             "W": (os.WIFEXITED, os.WEXITSTATUS, os.WIFSIGNALED, os.WTERMSIG),
-            "symlink": os.symlink, "mkdir": os.mkdir,
+            "symlink": os.symlink, "mkdir": os.mkdir, "set_wakeup_fd": signal.set_wakeup_fd,
         }
+        signal.set_wakeup_fd = self.set_wakeup_fd
         os.symlink = self.symlink
         os.mkdir = self.mkdir
         subprocess._fork_exec = self.fork_exec
@@ -497,6 +528,7 @@ class Kernel:
         time.time = r["time"]
         os.symlink = r["symlink"]
         os.mkdir = r["mkdir"]
+        signal.set_wakeup_fd = r["set_wakeup_fd"]
         os.WIFEXITED, os.WEXITSTATUS, os.WIFSIGNALED, os.WTERMSIG = r["W"]
         for p in self.procs.values():
             for fd in p.fds.values():
